@@ -42,7 +42,10 @@ Attempts(t) ==
      {Attempt(t, d, l, "ok", "ok", -1) : d \in Digests(t), l \in Lengths(t)}
 \cup {Attempt(t, d, "exact", kc, mc, -1) : d \in Digests(t), kc \in KeyClasses(t), mc \in MetaClasses(t)}
 \cup {Attempt(t, "none", l, kc, "ok", -1) : l \in Lengths(t), kc \in KeyClasses(t)}
-\cup (IF t = "post" THEN {} ELSE {Attempt(t, d, "exact", "ok", "ok", f) : d \in {"none", "good"}, f \in FailPoints})
+\* (point 4: after the last payload byte of an aws-chunked stream, before its terminating chunk -- every declared byte
+\* has arrived, the stream has not ended)
+\cup (IF t = "post" THEN {} ELSE {Attempt(t, d, "exact", "ok", "ok", f) : d \in {"none", "good", "wrong"},
+                                       f \in (IF t = "chunked" THEN FailPoints ELSE FailPoints \ {4})})
 
 Init0 == IF Cfg.single # "" THEN [InitState EXCEPT !.bk = Upd(<<>>, Cfg.single, NewBucket)] ELSE InitState
 
